@@ -26,11 +26,12 @@ RULE = ("the knut binary built from the working tree, run in a materialised file
         "Model/CliSafeMore.v - check, print, balance, transcode, weights, returns - over Model/Loader.v) must equal the observed class; in the flag family the class "
         "is that of CliFlags.run_argv on the argument list (usage error, help, or the command's class), '-' where the model has no opinion (an "
         "expression outside the modelled regexp sublanguage or whose meaning Model/Str.v cannot express, a universe file that exists, --digits "
-        "beyond 1000).  Second generator (C14flag, 4000 values per quick run): flag values given in-process to DateFlag.Set, RegexFlag.Set, "
+        "beyond 1000).  Second generator (C14flag, 20000 values per quick run): flag values given in-process to DateFlag.Set, RegexFlag.Set, "
         "MappingFlag.Set, pflag's int/int32/bool Set and the commodity registry; accepted/rejected (syntax or range), the value, and for "
         "expressions the matches on 17 probe strings must equal Flags.parse_value / rx_sem; spec verdict: Flags.value_in_range on the value "
         "the implementation accepted.  Non-trivial: the command got past flag parsing, i.e. the "
-        "observation is not a usage error (approximated: the case is not a flag-family case that ended in ERR); distinct by input.")
+        "observation is not a usage error (approximated: the case is not a flag-family case that ended in ERR); a flag value of the second "
+        "generator counts when the model has an opinion on it; distinct by input (the evidence lists binary runs and flag values separately).")
 
 TRUSTED_BASE = [
     "Coq 8.16.1 kernel, vm_compute (witnesses)",
@@ -91,8 +92,8 @@ LEVEL_NOTE = ("The unconditional statement is false of the pinned code (findings
 
 def plan(tier, seed):
     if tier == "quick":
-        return [("C14", seed, 600, []), ("C14flag", seed, 4000, [])]
-    return [("C14", seed + k, 6000, []) for k in range(10)] + [("C14flag", seed, 200000, [])]
+        return [("C14", seed, 600, []), ("C14flag", seed, 20000, [])]
+    return [("C14", seed + k, 6000, []) for k in range(10)] + [("C14flag", seed, 1000000, [])]
 
 
 def search_plan(seed):
